@@ -20,6 +20,10 @@ Decides:
  G registry         the short names of a subcommand reach the cluster registry (collect_shorts descends into Item::Command), so
                     `cmd -ab` after the command name means `cmd -a -b` (shared with C02).
  R scope restore    adjacent commands restore the pre-adjacency scope (shared with C05; found and fixed 9061519).
+ N name once       the name test stops at the first spelling that matched (`a || b`, or loops that leave on success): a later take_cmd
+                    would compare the NEXT item with the remaining aliases and swallow a positional that happens to spell one.
+ D both forks      ParseOrElse evaluates BOTH alternatives on forks before this_or_that_picks_first chooses (no early adoption of the
+                    first success): the deeper path - the subcommand - can only win if it was tried (shared with C07).
 Does not decide: acceptance of whole subcommand lines."""
 import re
 from core import *
